@@ -533,7 +533,7 @@ def gen_cases(rng, tier):
     # segwit flag without any witness (outside the protocol domain; the library accepts and re-writes it)
     cs_.append(Case('tx_superfluous', 'tx non ' + o_ser((1, [(P, 0, b'', 5, [])], [(1, b'\x51')], 0, True)).hex()))
     # ---- structured stream
-    nrand = 30000 if big else 1100
+    nrand = 15000 if big else 1100
     for k in range(nrand):
         kind = ('std', 'plain', 'non')[k % 3]
         tx_case('tx_' + kind, kind, rnd_tx(rng, kind), cs_)
